@@ -92,7 +92,12 @@ func (gw *eventBasedGateway) run(ctx context.Context, sender tracing.ISenderHand
 					},
 				}
 
-				m.response <- action
+				select {
+				case m.response <- action:
+				case <-ctx.Done():
+					// the flow is gone; do not block the gateway (a registered
+					// trace sender) forever
+				}
 			}
 		case <-ctx.Done():
 			gw.tracer.Send(CancellationFlowNodeTrace{Node: gw.element})
